@@ -165,6 +165,52 @@ def h_length(vc):
     vc.ensure("frame: operand unchanged", vc.snapshot(a) == before)
 
 
+def h_assign_then_measure(vc):
+    """a coordinate assigned after a first round of measures: every measure afterwards is that of the vector with the new coordinate
+    (nothing computed before the assignment may survive it)"""
+    g = C.G()
+    a, b = C.V(vc, "a"), C.V(vc, "b")
+    t = vc.real("t")
+    for i in range(3):
+        v = g.Vector(*SP.vec(a))
+        first = vc.call(lambda: (v.length(), v * v, v * b, v.cross(b), abs(v)))
+        vc.ensure("measures before the assignment do not raise", first.returned)
+        v[i] = t
+        new = list(SP.vec(a))
+        new[i] = t
+        vc.ensure("v[%d] = t stores t and nothing else" % i, SP.veq(SP.vec(v), tuple(new)))
+        out = vc.call(v.length)
+        vc.ensure("length() after v[%d] = t does not raise" % i, out.returned)
+        if out.returned:
+            r = out.value
+            vc.ensure("length() after v[%d] = t is the length of the changed vector" % i, And(SP.gez(r), SP.eq(r * r, SP.norm2(tuple(new)))))
+            o2 = vc.call(abs, v)
+            vc.ensure("abs(v) after v[%d] = t agrees" % i, o2.returned and SP.eq(o2.value, r))
+        o3 = vc.call(lambda: (v * v, v * b))
+        vc.ensure("dot products after v[%d] = t use the new coordinate" % i, o3.returned and And(SP.eq(o3.value[0], SP.norm2(tuple(new))), SP.eq(o3.value[1], SP.dot(tuple(new), SP.vec(b)))))
+        o4 = vc.call(v.cross, b)
+        vc.ensure("cross product after v[%d] = t uses the new coordinate" % i, o4.returned and SP.veq(SP.vec(o4.value), SP.cross(tuple(new), SP.vec(b))))
+        if vc.symbolic:
+            nz = SP.vnonzero(tuple(new))
+        else:
+            nz = any(x != 0 for x in new)
+        o5 = vc.call(v.normalized)
+        if o5.returned:
+            rv = SP.vec(o5.value)
+            vc.ensure("normalized() after v[%d] = t: unit length, same direction as the changed vector" % i, And(SP.eq(SP.norm2(rv), 1), SP.collinear(rv, tuple(new)), SP.gtz(SP.dot(rv, tuple(new)))))
+        else:
+            vc.ensure("normalized() after v[%d] = t raises only for the zero vector" % i, Not(nz))
+    p, q = C.P(vc, "p"), C.P(vc, "q")
+    d0 = vc.call(p.distance, q)
+    p[1] = t
+    newp = list(SP.vec(p))
+    vc.ensure("p[1] = t stores t", SP.eq(newp[1], t))
+    d1 = vc.call(p.distance, q)
+    vc.ensure("Point.distance after p[1] = t is the distance of the changed point", d1.returned and And(SP.gez(d1.value), SP.eq(d1.value * d1.value, SP.norm2(SP.sub(tuple(newp), SP.vec(q))))))
+    pv = vc.call(p.pv)
+    vc.ensure("pv() after p[1] = t is the changed position vector", pv.returned and SP.veq(SP.vec(pv.value), tuple(newp)))
+
+
 def h_normalized(vc):
     g = C.G()
     a = C.V(vc, "a")
@@ -258,6 +304,7 @@ def groups(tier):
     add("identities", h_identities, [VEC + "cross", VEC + "__mul__"])
     add("Vector.length", h_length, [VEC + "length"])
     add("Vector.normalized", h_normalized, [VEC + "normalized"])
+    add("coordinate assignment, then measures", h_assign_then_measure, [VEC + "__setitem__", VEC + "length", VEC + "normalized", VEC + "__mul__", VEC + "cross", PT + "__setitem__", PT + "distance", PT + "pv"])
     add("Vector.angle", h_angle, [VEC + "angle"], stubs=[(C.T_PAR, C.x_parallel), (C.T_VEQ, C.x_vector_eq), (C.T_ORT, C.x_orthogonal)])
     add("Point.move", h_point_move, [PT + "move"])
     return gs
